@@ -1,9 +1,12 @@
 (* C01 — every pod handler preserves the invariant under the informer discipline. *)
 From Coq Require Import List ZArith Bool Lia.
-From Verif Require Import Lib.Vec2 C01.Model C01.Spec C01.Proofs_Base C01.Proofs_Walk C01.Proofs_Delta
+From Verif Require Import Lib.VecN C01.Model C01.Spec C01.Proofs_Base C01.Proofs_Walk C01.Proofs_Delta
   C01.Proofs_PodList C01.Proofs_Sections.
 Import ListNotations.
 Open Scope Z_scope.
+
+Section WithDim.
+Context {D : Dim}.
 
 (* ---------- small facts ---------- *)
 
@@ -26,6 +29,12 @@ Proof.
   replace (exists_q s q) with true in Hm by (symmetry; apply exists_q_find; eauto).
   rewrite (find_split _ _ _ _ _ Hsp) in Hm. apply andb_prop in Hm. destruct Hm as [H1 H2].
   apply veqb_eq in H1. apply veqb_eq in H2. auto.
+Qed.
+
+Lemma quiet_zero_used id a b : pi_quiet (mkPI id false a b vzero vzero) = true.
+Proof.
+  unfold pi_quiet. cbn [pi_asg pi_aused pi_anpused].
+  rewrite viszero_zero. reflexivity.
 Qed.
 
 Lemma quiet_asg pi : pi_quiet pi = true -> pi_asg pi = true ->
@@ -159,7 +168,7 @@ Proof.
     + apply (finish s _ q HI HQ1).
       * rewrite Hsh1, Hsha. reflexivity.
       * intros m Hm. rewrite (Hfr1 _ Hm), (Hfra _ Hm). reflexivity.
-      * rewrite HP1. apply quiet_join; [exact Hq0 | reflexivity | reflexivity].
+      * rewrite HP1. apply quiet_join; [exact Hq0 | apply quiet_zero_used | reflexivity].
     + rewrite Hsh1, Hsha. reflexivity.
 Qed.
 
@@ -323,7 +332,7 @@ Proof.
       unfold pi_quiet. cbn [pi_asg pi_aused pi_areq pi_anpused pi_anp]. rewrite Ha, Hn, !veqb_refl. reflexivity.
     + split; [|exact Hsh1].
       apply (finish s _ q HI HQ1 Hsh1 Hfr1). rewrite HP1. apply quiet_join; [exact Hq1 | | exact Hq2].
-      unfold pi_quiet. rewrite Easg, Hu, Hun. reflexivity.
+      unfold pi_quiet. rewrite Easg, Hu, Hun, viszero_zero. reflexivity.
 Qed.
 
 (* ---------- OnPodAdd / OnPodDelete ---------- *)
@@ -406,7 +415,7 @@ Proof.
   destruct (set_asg_ok s2 q qq (p_id p) false ps1 pi2 ps2 HQ2 Hf2 Hsp2) as (HQ3 & Hsh3 & HP3 & Hfr3).
   cbn [pi2 pi_id pi_areq pi_anp pi_aused pi_anpused] in HP3.
   apply (finish s _ q HI HQ3); [rewrite Hsh3; exact Hsh2 | intros m Hmq; rewrite (Hfr3 _ Hmq); apply Hfr2; exact Hmq |].
-  rewrite HP3. apply quiet_join; [exact Hq1 | reflexivity | exact Hq2].
+  rewrite HP3. apply quiet_join; [exact Hq1 | apply quiet_zero_used | exact Hq2].
 Qed.
 
 (* ---------- OnPodUpdate ---------- *)
@@ -555,5 +564,7 @@ Proof.
     rewrite HP7. apply quiet_join; [exact Hq3 | | reflexivity].
     unfold pi_quiet. cbn. rewrite !veqb_refl. reflexivity.
   - apply (finish s3 _ qin HI3 HQ6 Hsh63 Hfr63).
-    rewrite HP6. apply quiet_join; [exact Hq3 | reflexivity | reflexivity].
+    rewrite HP6. apply quiet_join; [exact Hq3 | unfold e6; apply quiet_zero_used | reflexivity].
 Qed.
+
+End WithDim.
